@@ -291,11 +291,13 @@ prop("C20",
           "every option whose config key is the top-level key named like its flag (all convert and gopro convert options, tolerance); the four start-line options in the nested table are "
           "covered by exhaustive evaluation over present/absent x flag sets (after the repair D20).  Tied to the code by running the built tracktools binary: each option independently flag "
           "given/not x config key present/not, effective values read from the binary's own 'Loaded config' trace and compared with the model; for convert the bytes written (file or stdout, "
-          "file or stdin) must equal the library pipeline run with the rule's values and every failure (unknown decoder/encoder, missing input, undecodable data) must exit non-zero with a message.",
+          "file or stdin, fresh or pre-existing longer output file) must equal the library pipeline run with the rule's values and every failure (unknown decoder/encoder, missing input, undecodable data) must exit non-zero with a message; "
+          "for gopro laptimes on generated mp4 files the reported readings must be exactly those within the effective tolerance of the effective start line (library filter on the decoded readings) and the exit status must say whether any was found.",
      rule="one case = one invocation: convert with 8 options each in one of 4 source states (110 sampled, 70% forced to valid decoder/encoder so the pipeline runs; 6% undecodable data, 5% missing "
-          "input, 30% stdout, 20% stdin), gopro laptimes with 5 options (60 sampled of 1024), gopro convert with 2 flags (20); distinct = distinct JSON; all non-trivial",
-     assumptions=["cobra/viper/mapstructure/pflag are not modelled beyond the key-matching rule; the laptimes filter clause (readings within tolerance of the start line) is not exercised end to end "
-                  "(it composes C08's decoder with C17's detector and geodesic.Direct)"],
+          "input, 30% stdout, 20% stdin), gopro laptimes with 5 options (60 sampled of 1024), 50 laptimes runs on real mp4s (3-10 GPS readings from on the line to 111 m off it, effective tolerance 0/0.05/1/5, each option from flag, file, or flag over a decoy file value), "
+          "gopro convert with 2 flags (20); distinct = distinct JSON; all non-trivial",
+     assumptions=["cobra/viper/mapstructure/pflag are not modelled beyond the key-matching rule; the laptimes filter clause is checked end to end against the library's own decoder (C08), detector (C17) "
+                  "and geodesic.Direct, i.e. it shows the command composes them with the effective values, not that they are right (their own properties do)"],
      note="Trusted: Coq kernel + vm_compute; correspondence harness (binary runner, TOML writer, trace parser, library pipeline oracle). Modelled not verified: viper.GetStringMap key lower-casing, "
           "mapstructure field matching, cobra flag parsing.")
 
